@@ -264,8 +264,14 @@ fn main() {
                     }).collect();
                     json!({"Date": us(day(base, e.date)), "Action": "Deposit", "Symbol": e.sym, "Description": "RS", "Quantity": "10", "TransactionDetails": details})
                 }).collect();
-                let awards = json!({"FromDate": "01/01/2020", "ToDate": "12/31/2025", "Transactions": entries}).to_string();
                 let dep = day(base, rec.dep);
+                // the export period in the awards file's header is a property of the download, not of the look-up: a period
+                // that ends the day before the deposit (vests just before a year end, deposit just after) changes nothing
+                let awards = match bi % 3 {
+                    1 => json!({"FromDate": "01/01/2020", "ToDate": us(dep - chrono::Duration::days(1)), "Transactions": entries}),
+                    2 => json!({"FromDate": us(dep - chrono::Duration::days(3)), "ToDate": us(dep - chrono::Duration::days(2)), "Transactions": entries}),
+                    _ => json!({"FromDate": "01/01/2020", "ToDate": "12/31/2025", "Transactions": entries}),
+                }.to_string();
                 let sym = if sym_case == "mixed" { "Acme".to_string() } else { rec.sym.clone() };
                 let tx = json!({"BrokerageTransactions": [{"Date": us(dep), "Action": "Stock Plan Activity", "Symbol": sym, "Description": "RS", "Quantity": "10", "Price": "", "Fees & Comm": "", "Amount": ""}]}).to_string();
                 let inp = format!("awards: {awards}\ntransactions: {tx}");
@@ -328,6 +334,36 @@ fn main() {
                                 }
                             }
                         }
+                    }
+                }
+                // the RSU is dated at its VEST date, which may lie days before the deposit row: rows of other kinds dated inside
+                // that lag (a purchase the day before the deposit, a dividend two days before) must still come out in
+                // chronological order, whatever the order of the export's rows
+                if bi == 0 && sym_case == "upper" && !rec.admissible.is_empty() {
+                    let dep_row = json!({"Date": us(dep), "Action": "Stock Plan Activity", "Symbol": rec.sym, "Description": "RS", "Quantity": "10", "Price": "", "Fees & Comm": "", "Amount": ""});
+                    let buy_row = json!({"Date": us(dep - chrono::Duration::days(1)), "Action": "Buy", "Symbol": "ZZZ", "Description": "Z", "Quantity": "3", "Price": "$4.00", "Fees & Comm": "", "Amount": "-$12.00"});
+                    let div_row = json!({"Date": us(dep - chrono::Duration::days(2)), "Action": "Cash Dividend", "Symbol": "ZZZ", "Description": "Z", "Quantity": "", "Price": "", "Fees & Comm": "", "Amount": "$2.00"});
+                    let rows = match case_no % 3 { 0 => vec![dep_row, buy_row, div_row], 1 => vec![buy_row, dep_row, div_row], _ => vec![div_row, buy_row, dep_row] };
+                    let tx3 = json!({"BrokerageTransactions": rows}).to_string();
+                    let inp3 = format!("awards: {awards}\ntransactions: {tx3}");
+                    c.inc("executions");
+                    c.inc("rsu_lag_exports");
+                    if let Ok(Ok(o)) = convert(&tx3, Some(awards.clone())) {
+                        match parse_file(&o.cgt_content) {
+                            Err(e) => fs2.push(Finding { prop: "C18".into(), kind: "output_rejected".into(), case: case_no, detail: format!("converter output does not parse: {e}"), input: inp3.clone(), data: json!({}) }),
+                            Ok(txs) => {
+                                if txs.windows(2).any(|w| w[0].date > w[1].date) {
+                                    fs2.push(Finding { prop: "C18".into(), kind: "not_chronological".into(), case: case_no, detail: format!("output lines are not in chronological order (an RSU dated at its vest date next to rows dated between vest and deposit): {:?}", txs.iter().map(|t| t.date.to_string()).collect::<Vec<_>>()), input: inp3.clone(), data: json!({}) });
+                                }
+                                let buys = txs.iter().filter(|t| matches!(t.operation, Operation::Buy { .. })).count();
+                                let divs = txs.iter().filter(|t| matches!(t.operation, Operation::Dividend { .. })).count();
+                                if buys != 2 || divs != 1 {
+                                    fs2.push(Finding { prop: "C18".into(), kind: "rows_lost".into(), case: case_no, detail: format!("an RSU deposit, a purchase and a dividend were exported; the output has {buys} BUY and {divs} DIVIDEND lines"), input: inp3.clone(), data: json!({}) });
+                                }
+                            }
+                        }
+                    } else {
+                        fs2.push(Finding { prop: "C18".into(), kind: "convertible_refused".into(), case: case_no, detail: "an export the converter accepts row by row is refused as a whole".into(), input: inp3.clone(), data: json!({}) });
                     }
                 }
                 // no awards file at all: must fail naming symbol and date
